@@ -45,11 +45,24 @@ MCall(fn, h) ==
              ELSE "ANY"
 MGetFunctionList == rv' = "OK" /\ UNCHANGED <<up, sess>>      \* works in every state
 
+\* C_GetSlotList(tokenPresent, pSlotList, pulCount) with the driver's set-up: NSlots slots - the initialised tokens and,
+\* last, the one slot with an uninitialised token (every SoftHSM slot has a token present).  buf: "null" (count only),
+\* "small" (one entry too few), "exact", "large".  The expectation is [rv, n]: the count is reported in every case.
+MSlotList(present, buf) ==
+    /\ UNCHANGED <<up, sess>>
+    /\ rv' = IF ~up THEN "CRYPTOKI_NOT_INITIALIZED" ELSE IF buf = "small" THEN "BUFFER_TOO_SMALL" ELSE "OK"
+\* C_GenerateRandom / C_SeedRandom through the open session or a handle that does not exist; n bytes asked
+MRandom(fn, h, n) ==
+    /\ fn \in {"C_GenerateRandom", "C_SeedRandom"} /\ (h = "open" => sess) /\ UNCHANGED <<up, sess>>
+    /\ rv' = IF ~up THEN "CRYPTOKI_NOT_INITIALIZED" ELSE IF h = "none" THEN "SESSION_HANDLE_INVALID" ELSE "OK"
+
 Next == \/ \E how \in {"null", "oslock", "callbacks", "partial", "reserved"} : MInitialize(how)
         \/ \E arg \in {"null", "nonnull"} : MFinalize(arg)
         \/ MOpen
         \/ \E fn \in Fns, h \in {"open", "none"} : MCall(fn, h)
         \/ MGetFunctionList
+        \/ \E present \in BOOLEAN, buf \in {"null", "small", "exact", "large"} : MSlotList(present, buf)
+        \/ \E fn \in {"C_GenerateRandom", "C_SeedRandom"}, h \in {"open", "none"}, n \in {1, 16, 1000} : MRandom(fn, h, n)
 Spec == Init /\ [][Next]_vars
 View == <<up, sess>>
 TypeOK == up \in BOOLEAN /\ sess \in BOOLEAN /\ (sess => up)
